@@ -13,7 +13,7 @@ from . import layout as L
 PROPERTY = "C06"
 META = {
     "explanation": "differential check, both directions, between the real _write/_build code (symbolically executed) and an independent layout-driven reference encoder/decoder: byte-for-byte symbolic equality of encodings, field-for-field equality of decodings, every byte accounted; header/entry writers vs. the reference entry encoder; the BTS capture decoded by both",
-    "bounds": {"quick": {"blocks": "shape vectors of C01 (quick)", "entries": "comment lengths 0,1,3; all numeric fields symbolic", "capture": "all 8 blocks decoded by the real code under the numpy model and by the reference decoder (concrete bytes)"},
+    "bounds": {"quick": {"blocks": "shape vectors of C01 (quick)", "entries": "comment lengths 0,1,3; all numeric fields symbolic", "capture": "all 8 blocks decoded by the real code under the numpy model and by the reference decoder (concrete bytes); the optical-setup block additionally with its shape kept and every other byte symbolic"},
                "thorough": {"blocks": "shape vectors of C01 (thorough)", "entries": "comment lengths 0,1,3,255", "capture": "same"}},
     "outside_bounds": ["in-range signedness differences of counts (u32 vs i32 below 2^31) are indistinguishable by definition", "byFrame formats", "capture payloads are concrete (the symbolic legs use the bounded shapes)"],
     "assumptions": ["the reference layout (DESIGN Appendix A), anchored to the BTS capture on every run"],
@@ -149,8 +149,54 @@ def capture_case(tier="quick"):
     return h
 
 
+def capture_shape_case(type_code):
+    """A block of the BTS capture with its SHAPE kept (counts, enum codes, terminator
+    positions) and every other byte symbolic: any file shaped like this capture block
+    decodes identically under the real decoder and the reference decoder."""
+    def h(I):
+        kind = KIND_OF_TYPE[type_code]
+
+        def P(label, cond, note=""):
+            return I.prove(f"C06.capture_shape.{kind}.{label}", cond, note)
+        with open(CAPTURE, "rb") as fh:
+            raw = fh.read()
+        st = type("S", (), {"load_range": lambda self, a, n: list(raw[a:a + n]), "length": len(raw)})()
+        tab = SF.parse_table(st)
+        e = next(x for x in tab["entries"] if x["type"] == type_code)
+        data = raw[e["offset"]:e["offset"] + e["size"]]
+        buf, consumed = L.symbolize(I, data, kind, e["format"])
+        P("shape_accounts_for_the_whole_block", consumed == e["size"])
+        rfields, rcons, dc = L.ref_decode(I, kind, buf, e["format"])
+        try:
+            dec, pos = B.decode(I, kind, buf, e["format"], codec.SENTINEL)
+            exc = None
+        except Exception as ex:  # noqa: BLE001
+            dec, exc = None, ex
+        I.observe("exc", type(exc).__name__ if exc else None)
+        P("any_block_of_this_shape_decodes", exc is None, f"{type(exc).__name__ if exc else ''}: {exc}" if exc else "")
+        if exc is not None:
+            return
+        P("real_decoder_consumes_what_the_layout_accounts_for", pos == rcons)
+        dfl = B.fields(I, kind, dec)
+        ok = [n for n, _ in dfl] == [n for n, _ in rfields]
+        P("same_fields_as_reference_decoder", ok)
+        if ok:
+            import re
+            groups = {}
+            for (n, a), (_, b) in zip(rfields, dfl):
+                groups.setdefault(re.sub(r"\d+", "", n), []).append(L.field_eq(I, a, b))
+            for g, conds in groups.items():
+                P(f"decoded_value_matches_reference.{g}", I.and_(*conds))
+        P("declared_size_is_block_size", dec.nBytes == e["size"])
+        I.observe("pos", pos)
+        I.goal("done")
+    return h
+
+
 def instances(tier):
     out = []
+    for tc in ((6,) if tier == "quick" else (6, 7, 2)):
+        out.append(Instance(f"capture_shape.{KIND_OF_TYPE[tc]}", capture_shape_case(tc), goals=["done"], cost=500))
     for kind, sh in codec.shapes(tier, "C01"):
         n = sh.get("n", 1)
         cnt = max(1, sh.get("tracks", sh.get("signals", sh.get("plats", 1))))
